@@ -58,6 +58,8 @@ def gen_response(rng):
             spec["chunks"] = [c * k for c in spec["chunks"]]
     if isinstance(coding, str) and coding.endswith("_multi"):
         spec["split_at"] = rng.choice([0, 1, size // 2, max(size - 1, 0), size])
+        if rng.random() < 0.5:
+            spec["members"] = rng.choice([3, 3, 4, 5])  # several member/frame ends inside one piece handed to the decoder
     if rng.random() < 0.1:
         spec["ce_upper"] = True
     return spec
@@ -410,7 +412,7 @@ def shrinks(sc):
                 c = copy.deepcopy(sc)
                 c["program"][i][1] = a
                 yield c
-    for fld in ("chunk_ext", "ce_upper", "split_at"):
+    for fld in ("chunk_ext", "ce_upper", "split_at", "members"):
         if fld in r:
             c = copy.deepcopy(sc)
             del c["response"][fld]
